@@ -1336,7 +1336,13 @@ func (r *seqRun) stepCreate(name string, op Op, hr handleRef, base *mnode, res *
 			e = expect{ok: same}
 			r.o.Checks++
 			if !same && res.Status != nfsclient.NFS3ERR_EXIST && !(r.faulted() && res.Status != 0) {
-				r.vio("C03.exclusive-other-verifier", "kind="+cn.kind+fmt.Sprintf(",status=%d", res.Status), "%s: EXCLUSIVE CREATE of existing %s %q with a different verifier got %s, want NFS3ERR_EXIST", name, cn.kind, child, nfsclient.NFSStatName(res.Status))
+				facts := "kind=" + cn.kind + fmt.Sprintf(",status=%d", res.Status)
+				if cn.verf != nil {
+					// the file WAS made by an EXCLUSIVE create (a verifier is on record): not the recorded
+					// finding about files of unknown origin
+					facts += ",made-by-exclusive-create"
+				}
+				r.vio("C03.exclusive-other-verifier", facts, "%s: EXCLUSIVE CREATE of existing %s %q with a different verifier got %s, want NFS3ERR_EXIST", name, cn.kind, child, nfsclient.NFSStatName(res.Status))
 				e = expect{either: true}
 				r.diverged = true
 			}
